@@ -132,7 +132,7 @@ func VerifC02Plain() {
 	p.SetRoundTripper(o)
 	p.SetRequestModifier(m)
 	p.SetResponseModifier(m)
-	p.handleLoop(conn)
+	serveConn(p, conn)
 	checkExchanges(m, conn, o, ms, behave, n)
 	vf.Reach("done")
 }
@@ -227,7 +227,7 @@ func VerifC02Connect() {
 	})
 	p.SetRequestModifier(m)
 	p.SetResponseModifier(m)
-	p.handleLoop(conn)
+	serveConn(p, conn)
 	vf.Assert(len(m.recs) == 1, "request-modifier-runs-for-the-connect-request")
 	r := m.recs[0]
 	vf.Assert(r.reqCalls == 1 && r.originAtReq == 0, "request-modifier-once-before-dialling")
